@@ -418,7 +418,9 @@ prop(
           "(2^(n-1)) of streams of <= 10 (thorough 12) bytes x message size 1-4 x every order of <= 5 requests (with and without the "
           "first missing record) x capacity {2,3} x 3 timings (requests first / data first / alternating), plus seeded streams of up to "
           "48 records with empty chunks, spurious polls and far-ahead requests, plus shuttle schedules of request tasks against a feeder "
-          "task; distinct by the full case tuple"),
+          "task; distinct by the full case tuple. waker identity: seeded histories on a pool executor where one task (one waker) "
+          "owns several send / receive requests and pending futures are moved to another task (re-polled with a different waker); "
+          "at quiescence every future must have completed and the bytes must be in index order"),
     assumptions=[
         "messages have one fixed size per buffer and capacity/read size are multiples of it (the configuration the gateway uses); "
         "read size <= capacity",
@@ -441,7 +443,8 @@ prop(
               ("sender_manual_dfs_exhausted_cases", 10), ("sender_thread_histories_completed", 1000),
               ("sh_executions", 50000), ("sh_recv_executions", 5000),
               ("recv_stream_shapes", 20), ("recv_overflow_registrations", 1000),
-              ("recv_messages_straddling_chunks", 1000), ("recv_resolved_end_of_stream", 100)],
+              ("recv_messages_straddling_chunks", 1000), ("recv_resolved_end_of_stream", 100),
+              ("identity_pending_futures_moved_to_another_waker", 1000), ("identity_task_polls_sharing_one_waker", 1000)],
 )
 
 prop(
